@@ -422,28 +422,65 @@ def _walk_by_evaluation(repo, mod, m):
                 if not nonempty[i]:
                     layers[i] = []
 
+            how = []
+            filtered = []
+            seen_by_filter = []
+            holder = [None]
+
             def oracle(callee, args, kwargs):
                 if callee.startswith('get_functions#'):
                     i = int(callee[-1])
                     asked.append(i)
+                    how.append((list(args), dict(kwargs)))
+                    given = dict(zip(ps[1:4], args))
+                    given.update(kwargs)
+                    passed = given.get(ps[2]) if len(ps) > 2 else None
+                    if passed is not None and pred is not None:
+                        # the layer applies the filter while it is asked
+                        fd = absint.Sym('a-definition-of-layer-%d' % i)
+                        holder[0].invoke(passed, [fd], {})
+                        filtered.append(i)
+                    elif (passed is None) != (pred is None):
+                        filtered.append('filter lost or invented')
                     return ((layers[i], excl[i]),)
+                if callee == 'the-predicate':
+                    seen_by_filter.append(
+                        (args[1] if len(args) > 1 else None))
+                    return (True,)
+                if callee.startswith('convert#'):
+                    return (absint.Sym('name-in-the-convention-of-layer-' +
+                                       callee[-1]),)
                 return None
             chain = [None, None, None]
             parent = None
             for i in (2, 1, 0):
+                conv = absint.Obj(
+                    'convention-%d' % i,
+                    convert_function_name=absint.Sym('convert#%d' % i),
+                    convert_parameter_name=absint.Sym('convert#%d' % i))
                 chain[i] = absint.Obj(
-                    'layer-%d' % i, parent=parent,
+                    'layer-%d' % i, parent=parent, convention=conv,
+                    _convention=conv,
                     get_functions=absint.Sym('get_functions#%d' % i))
                 parent = chain[i]
+            flag = nonempty[0] != excl[2]      # both values get their turn
+            pred = absint.Obj('predicate', __call__=absint.Sym(
+                'the-predicate')) if nonempty[1] != excl[0] else None
             args = {ps[0]: chain[0], ps[1]: 'name'}
+            if len(ps) > 3:
+                args[ps[2]], args[ps[3]] = pred, flag
             it = absint.Interp(repo, mod, oracle)
+            holder[0] = it
             try:
                 out = it.run(m.node, args)
                 if out[0] != 'return':
                     return None
                 got = [it.force(x) for x in it.iterate(out[1])]
             except (absint.Unsupported, absint._Raise, RecursionError,
-                    TypeError):
+                    TypeError) as e:
+                import os
+                if os.environ.get('VERIF_DEBUG'):
+                    print('walk not interpretable:', repr(e))
                 return None
             stop = next((i for i in range(3) if excl[i]), 2)
             want_asked = list(range(stop + 1))
@@ -452,6 +489,26 @@ def _walk_by_evaluation(repo, mod, m):
                 '%s%s' % ('with overloads' if nonempty[i] else 'empty',
                           ' exclusive' if excl[i] else '')
                 for i in range(3))
+            if len(ps) > 3:
+                for a, k in how:
+                    given = dict(zip(ps[1:4], a))
+                    given.update(k)
+                    if given.get(ps[1]) != 'name' or \
+                            given.get(ps[3], False) is not flag:
+                        return False, 'a layer is asked with (%s) instead ' \
+                            'of the name and use_convention flag the walk ' \
+                            'was given (\'name\', %r): each layer spells ' \
+                            'the name in its own convention' % (', '.join(
+                                '%s=%r' % kv for kv in sorted(
+                                    given.items())), flag)
+                if 'filter lost or invented' in filtered:
+                    return False, 'the caller\'s filter is not handed to ' \
+                        'the layers as given'
+                if pred is not None and any(
+                        c is not chain[i] for c, i in zip(
+                            seen_by_filter, filtered)):
+                    return False, 'the filter of layer i is told another ' \
+                        'layer than the one that is asked'
             if asked != want_asked:
                 return False, 'with %s the layers are asked in the order ' \
                     '%s, expected %s (outward, each once, none beyond an ' \
